@@ -34,6 +34,10 @@ pub struct SrvCfg {
     /// signals whose disposition is "ignore" when the server is exec'ed (what nohup does with
     /// SIGHUP, and a non-interactive shell with SIGINT for a background job)
     pub ignore_signals: Vec<i32>,
+    /// stdout (where the server logs) is a small pipe read by the harness only while
+    /// `ServerProc::log_sink_open` is set: a log sink that can stall (a blocked terminal, a slow
+    /// journal) instead of a file that never does
+    pub log_pipe: bool,
 }
 
 impl SrvCfg {
@@ -54,6 +58,7 @@ impl SrvCfg {
             extra_env: Vec::new(),
             v6: false,
             ignore_signals: Vec::new(),
+            log_pipe: false,
         }
     }
 
@@ -219,6 +224,8 @@ pub struct ServerProc {
     pub out_path: PathBuf,
     pub err_path: PathBuf,
     pub started: Instant,
+    /// with cfg.log_pipe: the reader thread drains the server's stderr only while this is true
+    pub log_sink_open: std::sync::Arc<std::sync::atomic::AtomicBool>,
 }
 
 /// Start the real server binary. `raw_pairs`: if given, used instead of cfg.pairs() (C16/C20).
@@ -254,6 +261,10 @@ pub fn spawn_server(bins: &Path, cfg: &SrvCfg, dir: &Path, tag: &str, raw_pairs:
     }
     if cfg.via_env {
         cmd.arg("ENV");
+        // decoys: settings under names without the documented prefix (not this server's settings)
+        for (k, v) in [("PORT", "2002"), ("INTERFACE", "127.0.0.1"), ("SEED", "a32049da0ffde0ded92ce10a0230d35fe615ec8461c14986baa63fe3b3bac3db"), ("BATCH_SIZE", "13"), ("NUM_WORKERS", "3"), ("FAULT_PERCENTAGE", "11"), ("STATUS_INTERVAL", "77")] {
+            cmd.env(k, v);
+        }
         for (k, v) in &pairs {
             if let Some(hx) = v.strip_prefix("__hexbytes__") {
                 // raw bytes (not necessarily UTF-8) as the variable's value
@@ -281,7 +292,13 @@ pub fn spawn_server(bins: &Path, cfg: &SrvCfg, dir: &Path, tag: &str, raw_pairs:
         std::fs::write(&path, txt)?;
         cmd.arg(&path);
     }
-    cmd.stdin(Stdio::null()).stdout(std::fs::File::create(&out_path)?).stderr(std::fs::File::create(&err_path)?);
+    // (the server's logger writes to stdout; panics go to stderr)
+    cmd.stdin(Stdio::null()).stderr(std::fs::File::create(&err_path)?);
+    if cfg.log_pipe {
+        cmd.stdout(Stdio::piped());
+    } else {
+        cmd.stdout(std::fs::File::create(&out_path)?);
+    }
     if !cfg.ignore_signals.is_empty() {
         use std::os::unix::process::CommandExt;
         let sigs = cfg.ignore_signals.clone();
@@ -294,8 +311,36 @@ pub fn spawn_server(bins: &Path, cfg: &SrvCfg, dir: &Path, tag: &str, raw_pairs:
             });
         }
     }
-    let child = cmd.spawn()?;
-    Ok(ServerProc { child, cfg: cfg.clone(), out_path, err_path, started: Instant::now() })
+    let mut child = cmd.spawn()?;
+    let log_sink_open = std::sync::Arc::new(std::sync::atomic::AtomicBool::new(true));
+    if cfg.log_pipe {
+        if let Some(mut pipe) = child.stdout.take() {
+            use std::io::{Read, Write};
+            use std::os::unix::io::AsRawFd;
+            unsafe {
+                libc::fcntl(pipe.as_raw_fd(), libc::F_SETPIPE_SZ, 4096);
+            }
+            let open = log_sink_open.clone();
+            let path = out_path.clone();
+            std::thread::spawn(move || {
+                let Ok(mut f) = std::fs::File::create(&path) else { return };
+                let mut buf = [0u8; 4096];
+                loop {
+                    if !open.load(std::sync::atomic::Ordering::Relaxed) {
+                        std::thread::sleep(Duration::from_millis(5));
+                        continue;
+                    }
+                    match pipe.read(&mut buf) {
+                        Ok(0) | Err(_) => break,
+                        Ok(n) => {
+                            let _ = f.write_all(&buf[..n]);
+                        }
+                    }
+                }
+            });
+        }
+    }
+    Ok(ServerProc { child, cfg: cfg.clone(), out_path, err_path, started: Instant::now(), log_sink_open })
 }
 
 impl ServerProc {
